@@ -23,10 +23,11 @@ type envSpec struct {
 	chain   [][]byte
 	unprot  envenc.Unprotected
 
-	jws        []envenc.Member
-	cose       []envenc.CMember
-	crit       []any // labels (string / int64); nil with critAbsent = no crit member
-	critAbsent bool
+	jws         []envenc.Member
+	cose        []envenc.CMember
+	crit        []any               // labels (string / int64); nil with critAbsent = no crit member
+	payloadText func(string) string // JWS: rewrites the base64url text of the payload before signing (line wrapping)
+	critAbsent  bool
 
 	payload []byte
 
@@ -175,7 +176,7 @@ func (s *envSpec) encode(ledger *envenc.Ledger, note string) (env []byte, signin
 		if i := s.jIdx("alg"); i >= 0 {
 			s.jws[i].Raw = `"` + s.declAlg.Name + `"`
 		}
-		parts, in, sg, ok := envenc.JWSSign(s.jws, s.payload, s.unprot, key, s.signAlg)
+		parts, in, sg, ok := envenc.JWSSignText(s.jws, s.payload, s.payloadText, s.unprot, key, s.signAlg)
 		if s.jwsOuter != nil {
 			env = s.jwsOuter(parts)
 		} else {
